@@ -882,10 +882,12 @@ where
                 }
                 let pairs: u32 = tok[1].parse().unwrap();
                 let threads: u32 = tok[2].parse().unwrap();
-                let mut rng = Rng::new(tok[3].parse().unwrap());
+                let seed: u64 = tok[3].parse().unwrap();
+                let mut rng = Rng::new(seed);
                 let order: Vec<VarNo> = tok[4..].iter().map(|t| t.parse().unwrap()).collect();
                 // two more variables (2*pairs, 2*pairs+1) that the function does not use: levels without nodes
-                let n = 2 * pairs + 2;
+                // (set_var_order treats managers with and without empty levels differently: both occur)
+                let n = if seed % 2 == 0 || order.iter().any(|&v| v >= 2 * pairs) { 2 * pairs + 2 } else { 2 * pairs };
                 let mref = F::new_mgr(1 << 22, 1 << 16, threads).ok_or("skip")?;
                 mref.with_manager_exclusive(|m| m.add_vars(n));
                 let f: F = mref.with_manager_shared(|m| {
@@ -908,8 +910,24 @@ where
                 let after = ev(&f);
                 let v2l: Vec<String> = mref.with_manager_shared(|m| (0..n).map(|v| m.var_to_level(v).to_string()).collect());
                 let nodes_after = f.node_count();
+                // canonicity after the reordering: the same construction must arrive at the same handle, and
+                // after a collection the manager holds exactly the nodes of the live handle
+                let again: F = mref.with_manager_shared(|m| {
+                    let mut acc = F::f(m);
+                    for i in 0..pairs {
+                        let t = oom(oom(F::var(m, i))?.and(&oom(F::var(m, i + pairs))?))?;
+                        acc = oom(acc.or(&t))?;
+                    }
+                    Ok::<F, String>(acc)
+                })?;
+                let rebuilt = (again == f) as u8;
+                drop(again);
+                let inner_after_gc = mref.with_manager_shared(|m| {
+                    m.gc();
+                    m.num_inner_nodes()
+                });
                 Ok(format!(
-                    "big nodes={nodes} nodes_after={nodes_after} evals_ok={} v2l {}",
+                    "big nodes={nodes} nodes_after={nodes_after} evals_ok={} rebuilt={rebuilt} inner_after_gc={inner_after_gc} v2l {}",
                     (before == after) as u8,
                     v2l.join(" ")
                 ))
